@@ -55,7 +55,7 @@ def filtered_inputs(ck):
 
 def run(ck):
     engine.check_engine(ck, 'C06', None, 'every field (incl. change notices and Invalidated words)', n_sys_quick=6,
-                        fail_p=0.05, extra=watch_campaign)
+                        fail_p=0.05, extra=watch_campaign, n_evflow_quick=40)
     filtered_inputs(ck)
 
 
